@@ -291,6 +291,11 @@ def long_list_target(n, where):
     return "package a\n\nvar table = %s\n\nfunc f() {\n\tfoo()\n}\n" % lst
 
 
+KF_REPEATED = "repeated-metavariables-between-elisions"
+KF_REPEATED_PATCH = "@@\nvar x, y, z expression\n@@\n-foo(..., x, ..., y, ..., z, ..., x, ..., y, ..., 9)\n+bar()\n"
+KF_REPEATED_SRC = "package a\n\nfunc g() {\n\tfoo(" + ", ".join(str(i % 5) for i in range(300)) + ")\n}\n"
+
+
 def part_targets(ctx, quick, recs, st):
     scs = []
     # many elisions against a long list of equal elements that cannot match in the end: the number of ways to
@@ -304,6 +309,15 @@ def part_targets(ctx, quick, recs, st):
                 scs.append(dict(id="cli-manydots-%s-%d-%s" % (kind, n, "meta" if mv else "lit"), files=[dict(path="s.go", content=src), dict(path="p.patch", content=ptxt)],
                                 dirs=[], symlinks=[], args=["--print-only", "-p", "p.patch", "s.go"], stdin="", cwd="", strace=False, timeout_ms=30000,
                                 as_limit=3 << 30))
+    # ... and with repeated metavariables whose candidates differ (known finding repeated-metavariables-between-elisions)
+    scs.append(dict(id="cli-repeated-metas-300", files=[dict(path="s.go", content=KF_REPEATED_SRC), dict(path="p.patch", content=KF_REPEATED_PATCH)],
+                    dirs=[], symlinks=[], args=["--print-only", "-p", "p.patch", "s.go"], stdin="", cwd="", strace=False, timeout_ms=15000,
+                    as_limit=3 << 30))
+    for n in (20, 40):
+        src = "package a\n\nfunc g() {\n\tfoo(" + ", ".join(str(i % 5) for i in range(n)) + ")\n}\n"
+        scs.append(dict(id="cli-repeated-metas-%d" % n, files=[dict(path="s.go", content=src), dict(path="p.patch", content=KF_REPEATED_PATCH)],
+                        dirs=[], symlinks=[], args=["--print-only", "-p", "p.patch", "s.go"], stdin="", cwd="", strace=False, timeout_ms=30000,
+                        as_limit=3 << 30))
     # list length: memory and time may grow with the size of the file, not with the square of a list's length
     for where in ("same", "other", "args"):
         for n in (2000, 20000):
@@ -500,6 +514,11 @@ def judge(ctx, recs, st):
                 st["drift"] += 1
                 if len(ctx.notes) < 5:
                     ctx.notes.append("model drift on %s: real %s, model %s" % (r["what"].get("tokens"), r["augs"], r["pred"]))
+            known = load_known("C08")
+            if v["viol"] and r["id"] == "cli-repeated-metas-300" and r["outcome"] == "timeout" and KF_REPEATED in known and \
+                    (r["what"].get("patch"), r["what"].get("src")) == (KF_REPEATED_PATCH, KF_REPEATED_SRC):
+                ctx.known(KF_REPEATED, known[KF_REPEATED], r["id"])
+                continue
             if v["viol"]:
                 ctx.violation("%s: %s" % (r["id"], ",".join(v["viol"])), dict(kind="crash", id=r["id"], violated=v["viol"], outcome=r["outcome"], **r["what"]))
 
